@@ -144,7 +144,7 @@ pub fn job_c02(out_dir: &str, tier: &str, seed: u64) {
         let fixed = [1usize, 6, 12];
         let nsets = if ii < 4 * gen::FRAGS.len() { 5 } else { 4 };
         for si in 0..nsets {
-            let (_, hs) = if si < 3 { &sets[fixed[(si + ii) % 3]] } else { &sets[(ii * 3 + si * 7) % sets.len()] };
+            let (_, hs) = if si < 3 { &sets[fixed[(si + ii) % 3]] } else { &sets[(ii + si * 7) % sets.len()] };
             if si < 3 && ii >= 4 * gen::FRAGS.len() && si > 0 { continue; }
             let enc = if ii % 4 == 3 { encs[(ii / 4 + si) % encs.len()] } else { "utf-8" };
             let cfg = gen::merge(hs, &json!({"strict": (ii + si) % 3 != 0, "enc": enc, "mem": {"prealloc": *rng.pick(&[0usize, 4, 1024])}}));
